@@ -87,6 +87,19 @@ func init() {
 }
 
 func init() {
+	// C04 on dispute-centred histories with the settlement phase (every payer and voter claims twice): the escrow
+	// relations of the dispute account are exercised where the plain C04 profile has few disputes
+	Register(&PropDef{
+		ID:       "C04dispute",
+		Profile:  func(tier string, r *Rng) Profile { return disputeProfile("dispute-C04") },
+		Monitors: func(st *Stats) []Monitor { return []Monitor{NewC04Monitor(st), NewDisputeMonitor(st)} },
+		Cases:    tierMap(24, 96),
+		Blocks:   tierMap(300, 600),
+		Finish:   disputeFinish,
+	})
+}
+
+func init() {
 	oracleProfile := func(name string) Profile {
 		return Profile{Name: name, MinTx: 3, MaxTx: 9, Hostile: 0.15, VoteFault: 0.02, GapBig: 0.04, Gov: true,
 			W: map[string]float64{"tip": 14, "submit": 30, "registerSpec": 1.5, "govProposal": 1.2, "govVote": 5, "proposeDispute": 3, "addFee": 2, "addEvidence": 2.5, "vote": 3,
